@@ -227,7 +227,8 @@ def _cmodsq(cfg, rng):
 def _matrix(cfg, rng):
     o = odl()
     mode = opt(cfg, rng, 'mode', ['dense', 'dense', 'sparse', 'axis',
-                                  'complex', 'f32', 'axis_sparse'])
+                                  'complex', 'f32', 'axis_sparse',
+                                  'widerange', 'axis3d'])
     g = data(cfg)
     m = opt(cfg, rng, 'm', [1, 2, 3, 5])
     n = opt(cfg, rng, 'n', [1, 2, 4, 6])
@@ -242,6 +243,25 @@ def _matrix(cfg, rng):
         import scipy.sparse
         A = g.standard_normal((m, n)) * (g.uniform(0, 1, (m, n)) < 0.5)
         return o.MatrixOperator(scipy.sparse.coo_matrix(A))
+    if mode == 'widerange':
+        # a range whose dtype is wider than that of matrix.dot(x): accepted
+        # by the constructor, the result is cast
+        how = opt(cfg, rng, 'wide', ['real_to_complex', 'f32_to_f64',
+                                     'f32mat_f64dom'])
+        A = g.standard_normal((m, n))
+        if how == 'real_to_complex':
+            return o.MatrixOperator(A, domain=o.rn(n), range=o.cn(m))
+        if how == 'f32_to_f64':
+            return o.MatrixOperator(A.astype('float32'),
+                                    domain=o.rn(n, dtype='float32'),
+                                    range=o.rn(m))
+        return o.MatrixOperator(A.astype('float32'), domain=o.rn(n))
+    if mode == 'axis3d':
+        axis = opt(cfg, rng, 'axis3', [0, 0, 1, 2])
+        shp = [2, 3, 2]
+        shp[axis] = n
+        return o.MatrixOperator(g.standard_normal((m, n)),
+                                domain=o.tensor_space(tuple(shp)), axis=axis)
     axis = opt(cfg, rng, 'axis', [0, 1])
     dom = o.tensor_space((n, 3) if axis == 0 else (2, n))
     A = g.standard_normal((m, n))
